@@ -79,6 +79,11 @@ pub enum Job {
     Phantom { si: usize, base: Base, block: usize },
     /// c + v * x^s * prod_{i in a..=b}(x - 2^i): syndromes a..=b vanish, the others do not (in general)
     ZeroRange { si: usize, base: Base, block: usize, full: bool },
+    /// w errors at the given in-block positions whose values make two (or more) separate leading
+    /// Hankel minors H_j of the syndrome sequence vanish (j1 forced by solving for the last value,
+    /// others found by sweeping two values over all of GF(256)*): drives the decoder through
+    /// several singular steps within one block while staying within the correction capacity
+    HankelSingular { si: usize, base: Base, block: usize, positions: Vec<usize>, j1: usize },
     /// 10x10: all words within distance `dist` of the codeword whose first error is (pos, val)
     Ball10 { base: Base, pos: usize, val: u8, dist: usize, values_full: bool },
 }
@@ -349,6 +354,76 @@ pub fn expand(job: &Job, f: &mut dyn FnMut(&[u8], &[u8], CaseInfo)) {
                     r[g] = orig[g] ^ e;
                 }
                 f(&orig, &r, CaseInfo { max_block_weight: w });
+            }
+        }
+        Job::HankelSingular { si, base, block, positions, j1 } => {
+            let sy = &SYMBOLS[*si];
+            let idx = blk_idx(sy, *block);
+            let n = idx.len();
+            let w = positions.len();
+            let orig = base_codeword(*si, *base);
+            // locator of block position q: X = alpha^(n-1-q); S_i = sum Y_q X_q^i, syn[i-1] = S_i
+            let xs: Vec<u8> = positions.iter().map(|q| gf::pow(2, n - 1 - q)).collect();
+            let ns = 2 * (w - 1); // syndromes needed for H_1..H_(w-1)
+            let xpow: Vec<Vec<u8>> = xs.iter().map(|x| (1..=ns).map(|i| gf::pow(*x, i)).collect()).collect();
+            let hankel_det = |syn: &[u8], j: usize| -> u8 {
+                let mut m: Vec<Vec<u8>> = (0..j).map(|a| (0..j).map(|b| syn[a + b]).collect()).collect();
+                let mut det = 1u8;
+                for c in 0..j {
+                    let piv = match (c..j).find(|r| m[*r][c] != 0) {
+                        Some(p) => p,
+                        None => return 0,
+                    };
+                    m.swap(c, piv);
+                    det = gf::mul(det, m[c][c]);
+                    let d = gf::inv(m[c][c]);
+                    for r in c + 1..j {
+                        if m[r][c] != 0 {
+                            let f2 = gf::mul(m[r][c], d);
+                            for x in c..j {
+                                let a = gf::mul(f2, m[c][x]);
+                                m[r][x] ^= a;
+                            }
+                        }
+                    }
+                }
+                det
+            };
+            let mut ys: Vec<u8> = (0..w).map(|i| (i as u8) * 29 + 1).collect();
+            let mut r = orig.clone();
+            for ya in 1..=255u8 {
+                for yb in 1..=255u8 {
+                    ys[w - 3] = ya;
+                    ys[w - 2] = yb;
+                    // syndromes without the last error
+                    let mut s0 = vec![0u8; ns];
+                    for q in 0..w - 1 {
+                        for i in 0..ns {
+                            s0[i] ^= gf::mul(ys[q], xpow[q][i]);
+                        }
+                    }
+                    // det H_j1 is affine in the last value: A at 0, A + B at 1
+                    let a = hankel_det(&s0, *j1);
+                    let s1: Vec<u8> = (0..ns).map(|i| s0[i] ^ xpow[w - 1][i]).collect();
+                    let b = a ^ hankel_det(&s1, *j1);
+                    if a == 0 || b == 0 {
+                        continue;
+                    }
+                    let yw = gf::mul(a, gf::inv(b));
+                    let syn: Vec<u8> = (0..ns).map(|i| s0[i] ^ gf::mul(yw, xpow[w - 1][i])).collect();
+                    debug_assert_eq!(hankel_det(&syn, *j1), 0);
+                    // keep the pattern if another, non-adjacent leading minor vanishes too
+                    let singular: Vec<usize> = (1..w).filter(|j| hankel_det(&syn, *j) == 0).collect();
+                    if !singular.iter().any(|j| *j + 1 < *j1 || *j > *j1 + 1) {
+                        continue;
+                    }
+                    ys[w - 1] = yw;
+                    for q in 0..w {
+                        let g = idx[positions[q]];
+                        r[g] = orig[g] ^ ys[q];
+                    }
+                    f(&orig, &r, CaseInfo { max_block_weight: w });
+                }
             }
         }
         Job::ErrorsPlusZeroPrefix { si, base, block } => {
@@ -645,6 +720,57 @@ pub fn rs_syndrome_prefix(tier: Tier, jobs: &mut Vec<Job>) {
                 }
                 for positions in sets {
                     jobs.push(Job::SyndromePrefix { si, base: Base::Lcg(8), block, positions, alpha: alpha.clone() });
+                }
+            }
+        }
+    }
+}
+
+
+/// RS-H: patterns within the correction capacity with several singular Levinson/Hankel steps.
+pub fn rs_hankel_singular(tier: Tier, jobs: &mut Vec<Job>) {
+    let sizes: Vec<usize> = (0..48).filter(|si| {
+        let sy = &SYMBOLS[*si];
+        sy.t() >= 5 && (tier == Tier::Thorough || sy.total() <= 80 || sy.total() == 204 || sy.total() == 2178)
+    }).collect();
+    for si in sizes {
+        let sy = &SYMBOLS[si];
+        let t = sy.t();
+        let blocks: Vec<usize> = if sy.blocks > 1 { vec![0, sy.blocks - 1] } else { vec![0] };
+        for block in blocks {
+            let n = blk_idx(sy, block).len();
+            let nd = n - sy.ec_per_block();
+            let ws: Vec<usize> = match tier {
+                Tier::Quick => vec![5, t.min(7)],
+                Tier::Thorough => (5..=t.min(9)).collect(),
+            };
+            let mut ws = ws;
+            ws.dedup();
+            for w in ws {
+                if w > t || w > n {
+                    continue;
+                }
+                let mut sets: Vec<Vec<usize>> = vec![
+                    (0..w).collect(),
+                    (0..w).map(|i| (nd + i).saturating_sub(w / 2).min(n - 1)).collect(),
+                    (0..w).map(|i| i * (n - 1) / (w - 1)).collect(),
+                ];
+                for s in sets.iter_mut() {
+                    s.sort_unstable();
+                    s.dedup();
+                }
+                sets.retain(|s| s.len() == w);
+                sets.dedup();
+                if tier == Tier::Quick {
+                    sets.truncate(2);
+                }
+                for positions in sets {
+                    for j1 in 2..w {
+                        if tier == Tier::Quick && j1 > 4 {
+                            continue;
+                        }
+                        jobs.push(Job::HankelSingular { si, base: Base::Lcg(9), block, positions: positions.clone(), j1 });
+                    }
                 }
             }
         }
